@@ -260,6 +260,9 @@ class StmtMixin(object):
         if isinstance(target, ast.Name):
             if target.id in self.spec.ghosts and target.id not in st.env:
                 return [self.ghost_set(st, target.id, val)]
+            lt = getattr(self.contract, 'local_types', {}).get(target.id) if self.contract is not None else None
+            if lt is not None and isinstance(val.ty, TList) and val.ty.elem == NONE and isinstance(lt, TList):
+                val = self.L_empty(lt.elem)      # `x = []` for a local whose element sort the contract declares
             return [st.setvar(target.id, val)]
         if isinstance(target, (ast.Tuple, ast.List)):
             items = self.unpack(st, val, len(target.elts), node)
